@@ -33,7 +33,15 @@ FINISH = dict(
          "non-trivial = every JWS. (iii) py/ext/keychange.py: every POST of (ii) compared (destination, protected "
          "header text, predicted payloads, inner objects) with the call-site table Model.PostBind.siteOf, every key "
          "roll-over request (inner header, inner payload, flattened inner JWS, outer header; who signs which layer) "
-         "with Model.KeyChange.prepare / outerFor.",
+         "with Model.KeyChange.prepare / outerFor. (iv) more histories: the CA forgets the account between two starts, before a "
+         "contact update, before a key roll-over, and between the synchronisation and the newOrder of one attempt (every later "
+         "POST must name the account URL of the NEW registration: a kid the CA has superseded counts as not on record); one "
+         "daemon with two CAs and two accounts (each CA's log judged on its own; every order under the account of its "
+         "certificate); badNonce with and without Replay-Nonce, three in a row, 503 without nonce and 2xx without nonce at "
+         "every request position of an issuance, at the contact update and at the key roll-over; answers withheld at the "
+         "authorization, order and download requests; external account bindings with MAC keys of 16 / 35 / 65 / 200 bytes, a "
+         "key identifier that needs JSON escaping, the default algorithm, six account key types; CAs that append a query "
+         "string / a slash / a percent-escape to every URL they hand out.",
 )
 
 KT = ["rsa2048", "ecdsa_p256", "ecdsa_p384", "ecdsa_p521", "ed25519", "ed448", "rsa4096"]
@@ -115,12 +123,23 @@ def bulk(ctx, helper):
         ctx.sample({"key_type": kt, "mode": mode, "protected": b64u_dec(j["protected"]).decode()})
 
 
-def records_of(ca_log):
-    """Judge records of one server's log (POSTs in order + inner objects)."""
+def records_of(ca_log, accounts=None, owner_of=None):
+    """Judge records of one server's log (POSTs in order + inner objects).
+    accounts: the CA's account table (url -> record), given for flows in which the CA forgets accounts: a kid
+    is then "the account URL the server has on record" only until the client has been given a newer one (an
+    account created after the kid's, before this request).  owner_of: for flows with several accounts,
+    request record -> the contact of the account that request must be made under (None: any)."""
     out = []
     for r in ca_log:
         if r["kind"] != "req" or r["method"] != "POST":
             continue
+        if accounts and r.get("kid_ok") and r.get("kid") in accounts:
+            mine = accounts[r["kid"]]
+            newer = [a for u, a in accounts.items() if u != r["kid"] and mine.get("forgotten") and
+                     mine["created_seq"] < a["created_seq"] < r["seq"] and a.get("contacts") == mine.get("contacts")]
+            want = owner_of(r) if owner_of else None
+            if newer or (want is not None and want not in (mine.get("contacts") or [])):
+                r = dict(r, kid_ok=False)
         hdr = r.get("hdr") or {}
         rec = {"kind": "newAccount" if r["rk"] == "newAccount" else "other", "flat": bool(r.get("flat")),
                "hdr_members": r.get("hdr_members", []), "alg": hdr.get("alg", ""), "key_kind": r.get("key_kind", "?"),
@@ -185,7 +204,99 @@ def flow_scenarios(ctx):
                         "rules": [{"kind": pos, "nth": 0, "answer": {"drop": True}}]})
     for alg in ("HS256", "HS384", "HS512"):
         scs.append({"name": "eab-" + alg, "steps": [{"key_type": "ecdsa_p256", "eab": alg}], "nonce_on_get": True, "rules": []})
+    scs += more_scenarios(ctx.quick())
     return [dict(s, idx=i) for i, s in enumerate(scs)]
+
+
+def problem_rule(kind, nth, typ, status=400, nonce="fresh", times=None, **extra):
+    ans = dict({"status": status, "ctype": "application/problem+json", "body": {"type": mockca.ERR + typ, "detail": "injected"},
+                "nonce": nonce}, **extra)
+    r = {"kind": kind, "answer": ans, "label": "%s@%s%d" % (typ, kind, nth)}
+    if times:
+        r.update({"from": nth, "times": times})
+    else:
+        r["nth"] = nth
+    return r
+
+
+# request positions of an issuance with ONE identifier: (kind, nth)
+POS1 = [("newAccount", 0), ("newOrder", 0), ("authz", 0), ("challenge", 0), ("authz", 1), ("order", 0), ("finalize", 0),
+        ("order", 1), ("cert", 0)]
+NONCE_FAULTS = ["badNonce", "badNonce-no-nonce", "badNonce-x3", "503-no-nonce", "2xx-no-nonce"]
+
+
+def nonce_rule(pos, fault):
+    kind, nth = pos
+    if fault == "badNonce":
+        return problem_rule(kind, nth, "badNonce")
+    if fault == "badNonce-no-nonce":
+        return problem_rule(kind, nth, "badNonce", nonce="none")
+    if fault == "badNonce-x3":
+        return problem_rule(kind, nth, "badNonce", times=3)
+    if fault == "503-no-nonce":
+        return problem_rule(kind, nth, "serverInternal", status=503, nonce="none")
+    return {"kind": kind, "nth": nth, "answer": {"process": True, "nonce": "none"}, "label": "2xx-no-nonce@%s%d" % (kind, nth)}
+
+
+def b64u(b):
+    return base64.urlsafe_b64encode(b).decode().rstrip("=")
+
+
+EAB_VARIANTS = [   # name, key identifier, MAC key bytes, algorithm (None: option absent, HS256 by default)
+    ("urlsafe", "kid-urlsafe", b"\xfb\xef\xbe\xff\xfe" * 7, "HS256"),       # its base64url text is full of '-' and '_'
+    ("len16", "kid-16", b"0123456789abcdef", "HS384"),
+    ("len65", "kid-65", bytes(range(1, 66)), "HS256"),                      # longer than the SHA-256 block
+    ("len200", "kid-200", bytes((7 * i) % 251 for i in range(200)), "HS512"),  # longer than the SHA-512 block
+    ("default-alg", "kid-default", b"fedcba9876543210fedcba9876543210", None),
+    ("odd-kid", "kid \"quoted\" \\ é/京", b"0123456789abcdef0123456789abcdef", "HS256"),
+]
+EAB_KEYS = {kid: b64u(key) for _, kid, key, _ in EAB_VARIANTS}
+
+
+def more_scenarios(quick):
+    scs = []
+    # --- the CA forgets the account: everything after the new registration names the NEW account URL
+    for i, how in enumerate(("restart", "contacts", "keychange", "newOrder", "newOrder-nog")):
+        a = ["ecdsa_p256", "rsa2048", "ed25519", "ecdsa_p384", "ecdsa_p256"][i]
+        if how in ("newOrder", "newOrder-nog"):
+            # the account vanishes between the synchronisation and the newOrder of the same attempt
+            rules = [{"kind": "newOrder", "nth": 1, "answer": {"process": True, "forget_accounts": True}, "label": "forgotten@newOrder"}]
+            steps = [{"key_type": a}, {"key_type": a}]
+        else:
+            rules = []
+            second = {"restart": {"key_type": a}, "contacts": {"key_type": a, "contacts": ["new@example.org"]},
+                      "keychange": {"key_type": "ecdsa_p521" if a != "ecdsa_p521" else "ed25519"}}[how]
+            steps = [{"key_type": a}, dict(second, forget=True), dict(second)]
+        scs.append({"name": "forgotten-" + how, "steps": steps, "nonce_on_get": how != "newOrder-nog", "rules": rules, "forget": True})
+    # --- one daemon, two CAs, two accounts, three certificates
+    scs.append({"name": "two-ca-two-accounts", "steps": [{"key_type": "ecdsa_p256"}], "nonce_on_get": True, "rules": [], "two_ca": True})
+    scs.append({"name": "two-ca-two-accounts-nog", "steps": [{"key_type": "ed25519"}], "nonce_on_get": False, "rules": [], "two_ca": True})
+    # --- nonce histories at every request position
+    cells = [(p, f) for pi, p in enumerate(POS1) for fi, f in enumerate(NONCE_FAULTS) if not quick or (pi + 2 * fi) % 5 in (0, 3)]
+    for n, (p, f) in enumerate(cells):
+        scs.append({"name": "nonce-%s%d-%s" % (p[0], p[1], f), "steps": [{"key_type": ["ecdsa_p256", "ed25519", "rsa2048"][n % 3]}],
+                    "nonce_on_get": n % 2 == 0, "rules": [nonce_rule(p, f)]})
+    for n, f in enumerate(NONCE_FAULTS if not quick else NONCE_FAULTS[:3]):
+        # contact update and key roll-over answered that way (second start of the daemon)
+        scs.append({"name": "nonce-account0-%s" % f, "nonce_on_get": n % 2 == 1, "rules": [nonce_rule(("account", 0), f)],
+                    "steps": [{"key_type": "ecdsa_p256"}, {"key_type": "ecdsa_p256", "contacts": ["c@example.org"]}]})
+        scs.append({"name": "nonce-keyChange0-%s" % f, "nonce_on_get": n % 2 == 0, "rules": [nonce_rule(("keyChange", 0), f)],
+                    "steps": [{"key_type": "ecdsa_p256"}, {"key_type": "ecdsa_p384"}]})
+    # --- delivered but never answered, at the positions the first family leaves out
+    for pos in ("authz", "order", "cert"):
+        scs.append({"name": "dropped-%s-plain" % pos, "steps": [{"key_type": "ecdsa_p256"}], "nonce_on_get": pos == "order", "n_postop": 2,
+                    "rules": [{"kind": pos, "nth": 0, "answer": {"drop": True}}]})
+    # --- external account binding: other keys, key identifiers, the default algorithm, other account key types
+    for n, (name, kid, key, alg) in enumerate(EAB_VARIANTS):
+        scs.append({"name": "eab-" + name, "nonce_on_get": True, "rules": [],
+                    "steps": [{"key_type": ["ecdsa_p256", "rsa2048", "ed25519", "ecdsa_p384", "ed448", "ecdsa_p521"][n % 6],
+                               "eab": alg or "default", "eab_kid": kid}]})
+    # --- URLs that are not in the form a URL library prints them
+    for n, decor in enumerate(("?x=1&y=%2F", "/", "%7E")):
+        scs.append({"name": "url-decor-%d" % n, "url_decor": decor, "nonce_on_get": n != 1, "rules": [],
+                    "steps": [{"key_type": "ecdsa_p256"}, {"key_type": "ed25519", "contacts": ["u@example.org"]}] if n == 0
+                    else [{"key_type": ["ecdsa_p384", "rsa2048"][n - 1]}]})
+    return scs
 
 
 EAB_KEY = base64.urlsafe_b64encode(b"0123456789abcdef0123456789abcdef").decode().rstrip("=")
@@ -195,17 +306,28 @@ def run_flow(sc, root, helper):
     d = os.path.join(root, "f%d" % sc["idx"])
     os.makedirs(d, exist_ok=True)
     ca = mockca.MockCA(helper, rules=[dict(r) for r in sc["rules"]],
-                       opts={"nonce_on_get": sc["nonce_on_get"], "eab_keys": {"kid-1": EAB_KEY}, "valid_secs": 90 * 86400,
+                       opts={"nonce_on_get": sc["nonce_on_get"], "eab_keys": dict(EAB_KEYS, **{"kid-1": EAB_KEY}), "valid_secs": 90 * 86400,
+                             "url_decor": sc.get("url_decor", ""),
                              # every third CA spells its host name in a way a URL library would rewrite
                              "url_host": "Localhost" if sc["idx"] % 3 == 2 else None})
     ca.start()
     ok_all = True
+    if sc.get("two_ca"):
+        return run_two_ca(sc, d, ca, helper)
     try:
         for step in sc["steps"]:
+            if step.get("forget"):
+                with ca.lock:
+                    for a in ca.accounts.values():
+                        a["forgotten"] = True
             acct = {"name": "acc1", "contacts": [{"mailto": m} for m in (step.get("contacts") or ["a@example.org"])],
                     "key_type": step["key_type"]}
             if step.get("eab"):
                 acct["external_account"] = {"identifier": "kid-1", "key": EAB_KEY, "signature_algorithm": step["eab"]}
+            if step.get("eab_kid"):
+                acct["external_account"] = {"identifier": step["eab_kid"], "key": EAB_KEYS[step["eab_kid"]]}
+                if step["eab"] != "default":
+                    acct["external_account"]["signature_algorithm"] = step["eab"]
             cert = {"name": "crt", "identifiers": [{"dns": "example.org", "challenge": "http-01"}], "key_type": "ecdsa_p256"}
             # a certificate must be due: remove the previous one
             for fn in os.listdir(os.path.join(d, "certs")) if os.path.isdir(os.path.join(d, "certs")) else []:
@@ -223,15 +345,57 @@ def run_flow(sc, root, helper):
     return {"sc": sc, "log": list(ca.log), "ok": ok_all, "accounts": ca.accounts}
 
 
+def run_two_ca(sc, d, ca, helper):
+    """One daemon, two CAs (endpoints ep1 / ep2), two accounts: crt1 = (acc1, ep1), crt2 = (acc1, ep2),
+    crt3 = (acc2, ep1).  Each CA's log is judged on its own (nonces, kid, key are per server); on ep1 every
+    order must moreover be made under the account of its certificate."""
+    ca2 = mockca.MockCA(helper, opts={"nonce_on_get": not sc["nonce_on_get"], "valid_secs": 90 * 86400})
+    ca2.start()
+    kt = sc["steps"][0]["key_type"]
+    accts = [{"name": "acc1", "contacts": [{"mailto": "one@example.org"}], "key_type": kt},
+             {"name": "acc2", "contacts": [{"mailto": "two@example.org"}], "key_type": "ecdsa_p384"}]
+    certs = [{"name": "crt1", "identifiers": [{"dns": "one.example.org", "challenge": "http-01"}], "key_type": "ecdsa_p256"},
+             {"name": "crt2", "identifiers": [{"dns": "two.example.org", "challenge": "http-01"}], "key_type": "ecdsa_p256",
+              "endpoint": "ep2"},
+             {"name": "crt3", "identifiers": [{"dns": "three.example.org", "challenge": "http-01"}], "key_type": "ecdsa_p256",
+              "account": "acc2"}]
+
+    def pre(root, cfg):
+        cfg["endpoint"].append({"name": "ep2", "url": ca2.base + "/directory", "tos_agreed": True})
+        cfggen.write(os.path.join(root, "acmed.toml"), cfg)
+    try:
+        obs = flow.run_scenario(d, certs, accounts=accts, ca=ca, helper=helper, timeout=40, n_postop=3, pre=pre)
+        posts = [h for h in obs["hooks"] if h["name"] == "rec-post-operation"]
+        ok = len(posts) >= 3 and all(flow.hook_args(p).get("is_success") == "true" for p in posts)
+    finally:
+        ca.stop()
+        ca2.stop()
+    return {"sc": sc, "log": list(ca.log), "ok": ok, "accounts": ca.accounts, "log2": list(ca2.log), "accounts2": ca2.accounts}
+
+
+def owner_two_ca(r):
+    """ep1 of the two-CA flow: the contact of the account an order belongs to (by the name ordered)."""
+    if r.get("rk") != "newOrder":
+        return None
+    p = r.get("payload") or ""
+    return "mailto:two@example.org" if "three.example.org" in p else "mailto:one@example.org" if "one.example.org" in p else None
+
+
 def flows(ctx, helper, root):
     scs = flow_scenarios(ctx)
     with concurrent.futures.ThreadPoolExecutor(max_workers=10) as ex:
         results = list(ex.map(lambda s: run_flow(s, root, helper), scs))
     jin, keep = [], []
     for r in results:
-        recs = records_of(r["log"])
+        sc = r["sc"]
+        recs = records_of(r["log"], r["accounts"] if (sc.get("forget") or sc.get("two_ca")) else None,
+                          owner_two_ca if sc.get("two_ca") else None)
         jin.append({"op": "c04_judge", "log": [{k: v for k, v in x.items() if k != "_src"} for x in recs]})
         keep.append((r, recs))
+        if "log2" in r:     # the second CA of a two-CA flow: a server of its own, a log of its own
+            recs2 = records_of(r["log2"], r["accounts2"])
+            jin.append({"op": "c04_judge", "log": [{k: v for k, v in x.items() if k != "_src"} for x in recs2]})
+            keep.append((dict(r, sc=dict(sc, name=sc["name"] + "/ep2")), recs2))
     verdicts = vlib.model(jin)
     for (r, recs), v in zip(keep, verdicts):
         sc = r["sc"]
@@ -243,6 +407,12 @@ def flows(ctx, helper, root):
         if not r["ok"]:
             # not a C04 clause by itself; but a flow that cannot complete against a conforming CA usually is
             ctx.count("flow:attempt-failed")
+            if sc.get("forget") or sc.get("two_ca") or sc.get("url_decor") or sc["name"].startswith(("nonce-", "eab-")):
+                ctx.count("flow:attempt-failed:" + sc["name"])
+        if sc["name"].startswith("nonce-"):
+            ctx.count("flow:nonce-fault-fired=%s" % any(x["_src"].get("rule") for x in recs))
+        if sc.get("forget"):
+            ctx.count("flow:registrations-after-forgetting", max(0, sum(1 for x in recs if x["kind"] == "newAccount" and x["_src"].get("account_created")) - 1))
         if not v["holds"]:
             bad = [i for i, ok in enumerate(v["req_ok"]) if not ok][0]
             x = recs[bad]
@@ -256,7 +426,8 @@ def flows(ctx, helper, root):
         elif sc["name"].startswith("rollover") and not any(x["kind"] == "keyChangeInner" for x in recs):
             ctx.broke("harness", "a roll-over scenario produced no keyChange request", {"sc": sc})
     ctx.traces += len(keep)
-    keychange.extend(ctx, helper, vlib.model, results)
+    # (the call-site replay follows ONE account and ONE certificate per server log)
+    keychange.extend(ctx, helper, vlib.model, [r for r in results if not r["sc"].get("two_ca")])
     ctx.sample({"flow": keep[0][0]["sc"]["name"],
                 "first_records": [{k: v for k, v in x.items() if k != "_src"} for x in keep[0][1][:2]]})
 
@@ -295,7 +466,9 @@ def replay(ctx):
         root = os.path.join(vlib.BUILD, "scratch", "c04-replay")
         shutil.rmtree(root, ignore_errors=True)
         res = run_flow(dict(obj["sc"], idx=0), root, helper)
-        recs = records_of(res["log"])
+        rsc = res["sc"]
+        recs = records_of(res["log"], res["accounts"] if (rsc.get("forget") or rsc.get("two_ca")) else None,
+                          owner_two_ca if rsc.get("two_ca") else None)
         v = vlib.model([{"op": "c04_judge", "log": [{k: v2 for k, v2 in x.items() if k != "_src"} for x in recs]}])[0]
         print(v)
         keychange.extend(ctx, helper, vlib.model, [res])
